@@ -231,6 +231,11 @@ func (s *Stream) sendMessageWithEnd(ctx context.Context, data []byte, end byte) 
 	if s.gcm != nil && s.encrypted {
 		// Calculate the size overhead from encryption
 		encryptedSize := s.calculateEncryptedSize(len(data))
+		// The receiver bounds the on-the-wire length, which includes the GCM tag
+		// (and the IV on the first frame); refuse here what it would reject.
+		if encryptedSize > MaxMessageSize {
+			return fmt.Errorf("message too large: %d bytes encrypted (max %d)", encryptedSize, MaxMessageSize)
+		}
 
 		// Construct header with encrypted data length
 		finalHeader[0] = end // End flag
